@@ -24,6 +24,7 @@ def check(repo, tier="quick"):
     res.rule("C19.b", "every dequeued node enqueues both successor families (consume next required symbol; insert each candidate) unless pruned by the depth limit or an empty candidate set")
     res.rule("C19.c", "soundness: the only return of a sequence is under `nothing remains and all matchers complete`; matchers are deep-copied before being advanced; successors extend the prefix by exactly the symbol matched")
     res.rule("C19.d", "depth limit: reset to the configured limit on the consume branch, decremented on the insert branch, tested before inserting")
+    res.rule("C19.g", "candidates for insertion are those every pattern allows: starting from {wildcard}, each matcher's next symbols (end-of-sequence discarded) are combined by the four-case table (wildcard on both sides: union; only the accumulated set has the wildcard: replace by the matcher's set; only the matcher has it: unchanged; neither: intersection), decided for each of the four cases from the guards of the if-chain; and the matchers themselves step as C18.c requires (symbol and wildcard steps of every current state, no state change on failure), since the search does not test match_symbol's result on the insert branch")
     res.rule("C19.f", "history independence: symbol_re and the encoder's sequence builder keep no state between calls; no swapped same-named arguments")
     res.rule("C19.e", "encoder.make_sequence passes the generic pattern and the level's own table cell and uses the result unchanged")
 
@@ -213,6 +214,8 @@ def check(repo, tier="quick"):
 
     globals_state.rule(repo, res, "C19.f", ["symbol_re", "encoder.sequence"], what="the sequence found for one call (a later call could be answered from an earlier one's matchers or search state)")
     lints.rule(repo, res, "C19.f", ["symbol_re", "encoder.sequence"])
+    rule_g(repo, res, fn, where)
+    res.floor("C19.g", 10)
     res.floor("C19.f", 5)
     res.floor("C19.a", 1)
     res.floor("C19.b", 5)
@@ -268,3 +271,96 @@ def rule_e(repo, res):
     a0 = call.args[0]
     ok = isinstance(a0, ast.Name)
     res.check(ok, "C19.e", "required:picture-names", where, "the required symbols must be the picture data units' parse-code names", by="list built from the picture data units")
+
+
+def _bool_eval(test, env):
+    """value of a boolean combination of the atoms in env (norm text -> bool); None if another atom occurs"""
+    t = norm(test)
+    if t in env:
+        return env[t]
+    if isinstance(test, ast.UnaryOp) and isinstance(test.op, ast.Not):
+        v = _bool_eval(test.operand, env)
+        return None if v is None else not v
+    if isinstance(test, ast.BoolOp):
+        vs = [_bool_eval(v, env) for v in test.values]
+        if None in vs:
+            return None
+        return all(vs) if isinstance(test.op, ast.And) else any(vs)
+    if isinstance(test, ast.Compare) and len(test.ops) == 1 and isinstance(test.ops[0], ast.NotIn):
+        pos = norm(ast.Compare(left=test.left, ops=[ast.In()], comparators=test.comparators))
+        if pos in env:
+            return not env[pos]
+    return None
+
+
+def rule_g(repo, res, fn, where):
+    from ..core import pfind, pmatch
+    from ..report import Ob
+    from . import c18
+
+    n, e = pfind("for X_m in X_ms:\n    X_s = X_m.valid_next_symbols()\n    STMTS_", fn)
+    if n is None:
+        res.check(False, "C19.g", "candidates:loop-over-matchers", where, "loop `for matcher in matchers: symbols = matcher.valid_next_symbols(); ...` not found", by="")
+        return
+    sv = e["X_s"]
+    # the accumulated set: initialised to {WILDCARD} immediately before the loop
+    cand = None
+    blk = getattr(n, "_parent", None)
+    for field in ("body", "orelse"):
+        b = getattr(blk, field, None)
+        if isinstance(b, list) and n in b and b.index(n) > 0:
+            prev = b[b.index(n) - 1]
+            for form in ("X_c = set([WILDCARD])", "X_c = {WILDCARD}"):
+                e2 = pmatch(form, prev)
+                if e2 is not None:
+                    cand = e2["X_c"]
+    res.check(cand is not None, "C19.g", "candidates:start-from-wildcard", where, "the accumulated candidate set must start as {WILDCARD} right before the loop over the matchers", by="candidates = {WILDCARD}")
+    if cand is None:
+        return
+    body = n.body[1:]
+    disc = [s for s in body if pmatch("%s.discard(END_OF_SEQUENCE)" % sv, s) is not None]
+    chain = [s for s in body if isinstance(s, ast.If)]
+    res.check(len(disc) == 1 and len(chain) == 1 and len(body) == 2 and body.index(disc[0]) < body.index(chain[0]), "C19.g", "candidates:eos-discarded-then-combined", where, "the loop body must discard END_OF_SEQUENCE from the matcher's symbols and then combine them in one if-chain", by="discard, then one if-chain")
+    if len(chain) != 1:
+        return
+    atoms = ("WILDCARD in %s" % sv, "WILDCARD in %s" % cand)
+    want = {(True, True): "union", (False, True): "replace", (True, False): "keep", (False, False): "intersect"}
+
+    def action(stmts):
+        stmts = [x for x in stmts if not isinstance(x, ast.Pass)]
+        if not stmts:
+            return "keep"
+        if len(stmts) != 1:
+            return "?"
+        x = stmts[0]
+        if pmatch("%s.update(%s)" % (cand, sv), x) is not None or pmatch("%s |= %s" % (cand, sv), x) is not None:
+            return "union"
+        if pmatch("%s = %s" % (cand, sv), x) is not None or pmatch("%s = set(%s)" % (cand, sv), x) is not None:
+            return "replace"
+        if pmatch("%s.intersection_update(%s)" % (cand, sv), x) is not None or pmatch("%s &= %s" % (cand, sv), x) is not None:
+            return "intersect"
+        return "?"
+
+    for (ws, wc), expected in sorted(want.items()):
+        env = {atoms[0]: ws, atoms[1]: wc}
+        node = chain[0]
+        got = None
+        while True:
+            v = _bool_eval(node.test, env)
+            if v is None:
+                got = "guard not over the two wildcard tests: %s" % short(node.test, 60)
+                break
+            if v:
+                got = action(node.body)
+                break
+            if len(node.orelse) == 1 and isinstance(node.orelse[0], ast.If):
+                node = node.orelse[0]
+                continue
+            got = action(node.orelse)
+            break
+        res.check(got == expected, "C19.g", "candidates:case(wildcard in matcher's=%s, in accumulated=%s)" % (ws, wc), where, "in this case the accumulated candidates must be combined by `%s` but the if-chain does `%s`: a symbol that an earlier pattern forbids can come back (the result then fails that pattern), or allowed symbols are lost" % (expected, got), by=expected)
+    sm = repo.mod("symbol_re")
+    sub = Result("C18")
+    c18.simulation_shape(repo, sub, sm)
+    for o in sub.obs:
+        res._add(Ob("C19.g", "%s/%s" % (o.rule, o.key), o.where, o.status, o.detail, o.by, o.path))
